@@ -170,15 +170,15 @@ CLAIMED["C04"] = {
     "design": "DESIGN.md §5 C04",
 }
 CLAIMED["C10"] = {
-    "text": "Coq theorem: doc_cleanups keeps the block structure and maps every leaf through the documented rewrite (a heading whose whole "
-            "content is bold loses the bold, bold-italic becomes italic), all other leaves untouched at any depth; the transform stage keeps "
-            "every literal (C04). List spacing is decided by running the extracted model and the implementation under preserve / loose / "
-            "tight: the three outputs agree on every line that is not empty up to quote markers and indentation, loose makes every list of "
-            "two or more items loose, tight makes every list of single-block items tight, preserve keeps the tightness of the input; "
-            "cleanups on vs off: tree(on) = documented rewrite of tree(off) and all non-heading lines byte-identical.",
-    "note": "The list-spacing statement is not yet a Coq theorem (partial): it is evaluated on generated documents. Findings D-42 and D-56 "
-            "(tightness not preserved around headings / nested loose lists) are listed.",
-    "design": "DESIGN.md §5 C10",
+    "text": "Coq theorems: doc_cleanups keeps the block structure and maps every leaf through the documented rewrite (a heading whose whole "
+            "content is bold loses the bold, bold-italic becomes italic), all other leaves untouched at any depth; for every document tree, "
+            "every wrapper and every two list-spacing modes the two rendered outputs have the same lines apart from lines that are empty up "
+            "to quote markers and indentation (simulation of the two renderer runs, Proofs/SpacingProofs.v). What the modes do to the "
+            "tightness Marko reads back (loose: every list of two or more items loose; tight: lists of single-block items tight; preserve: "
+            "as in the input) and cleanups on vs off on re-parsed trees are evaluated on the extracted model and the implementation.",
+    "note": "Findings D-42 and D-56 (tightness not preserved around headings / nested loose lists) are listed. Marko's reading of tight/loose "
+            "is not modelled.",
+    "design": "DESIGN.md §0.3 / §5 C10",
 }
 CLAIMED["C17"] = {
     "text": "Coq theorems over an abstract directory tree with pathspec, glob and the order of paths as oracles (for every tree, matcher "
